@@ -1,7 +1,7 @@
 """C16 - label ordering is a total order equal to CBOR's deterministic key ordering."""
 import itertools
 from lib.prov import Prov, show, is_call, subterms
-from lib.guards import outcomes, path_variants, normalize_bool_cond, cond_variants
+from lib.guards import outcomes, path_variants, normalize_bool_cond, cond_variants, path_rows, TooManyPaths
 
 REGISTER = True
 META = {
@@ -64,33 +64,40 @@ TEXTS = ["", "a", "b", "aa", "ab", "ba", "é", "z", "a" * 23, "a" * 24, "b" * 23
 
 # ---- decision-table extraction ---------------------------------------------------------------------------------
 def decision_table(prog, f):
-    """[(variant0, variant1, {subject term: int value} extra conditions, result term)]"""
+    """one row per acyclic path of the comparison function: (conditions along the path, result term, row record)"""
     pv = Prov(f)
-    rows = []
-    for o in outcomes(f, pv):
-        pvs = path_variants(prog, pv, o["conds"])
-        v0 = pvs.get(("deref", ("param", 0)))
-        v1 = pvs.get(("deref", ("param", 1)))
-        extra = {}
-        for c in o["conds"]:
-            if c[0][0] == "discr":
-                continue
-            if c[1] == "eq":
-                extra[c[0]] = c[2]
-            else:
-                extra[c[0]] = ("not", c[2])
-        rows.append((v0, v1, extra, o["term"], o))
+    try:
+        rows = path_rows(f, pv)
+    except TooManyPaths:
+        raise CannotEval("%s has too many paths to enumerate" % f.key)
     return rows, pv
 
 
+class CannotEval(Exception):
+    pass
+
+
+def _side(t):
+    """0 / 1 if t is (a reference to / dereference of) parameter 0 / 1"""
+    while t[0] in ("ref", "deref"):
+        t = t[1]
+    return t[1] if t[0] == "param" and t[1] in (0, 1) else None
+
+
 def payload_of(t):
-    """which sample component a leaf operand denotes: ('int', side) | ('len', side) | ('text', side) | None"""
-    while t[0] in ("ref", "deref") and len(t) >= 2 and t[1][0] != "param":
-        t = t[1]
-    if t[0] == "ref":
-        t = t[1]
-    if t[0] == "field" and t[2] == "0" and t[1][0] == "variant" and t[1][1][0] == "deref" and t[1][1][1][0] == "param":
-        side = t[1][1][1][1]
+    """which sample component a leaf operand denotes: ('int', side) | ('len', side) | ('text', side) | ('enc', side) |
+    ('enclen', side) | None"""
+    while True:
+        if t[0] in ("ref", "deref"):
+            t = t[1]
+        elif is_call(t) and t[1] in ("core::ops::deref::Deref::deref", "alloc::string::String::as_str", "core::convert::AsRef::as_ref",
+                                      "alloc::string::String::as_bytes", "core::str::<impl str>::as_bytes",
+                                      "alloc::vec::Vec::<T, A>::as_slice", "core::borrow::Borrow::borrow") and len(t[2]) == 1:
+            t = t[2][0]     # borrow-only views of the same bytes: the order of the viewed values is the same bytewise order
+        else:
+            break
+    if t[0] == "field" and t[2] == "0" and t[1][0] == "variant" and _side(t[1][1]) is not None:
+        side = _side(t[1][1])
         var = t[1][2]
         if var in ("Int", "PrivateUse"):
             return ("int", side)
@@ -98,22 +105,64 @@ def payload_of(t):
             return ("text", side)
         if var == "Assigned":
             return ("assigned", side)
-    if is_call(t, "alloc::string::String::len"):
+    if is_call(t) and t[1] in ("alloc::string::String::len", "core::str::<impl str>::len") and len(t[2]) == 1:
         inner = payload_of(t[2][0])
         if inner and inner[0] == "text":
             return ("len", inner[1])
+    if is_call(t) and t[1] in ("alloc::vec::Vec::<T, A>::len", "core::slice::<impl [T]>::len") and len(t[2]) == 1:
+        inner = payload_of(t[2][0])
+        if inner and inner[0] == "enc":
+            return ("enclen", inner[1])
     if is_call(t, "iana::EnumI64::to_i64"):
         inner = payload_of(t[2][0])
         if inner and inner[0] == "assigned":
             return ("int", inner[1])
+    # unwrap(to_vec(clone(argN))): the deterministic encoding of the label
+    if is_call(t, "core::result::Result::<T, E>::unwrap") and is_call(t[2][0], "common::CborSerializable::to_vec"):
+        c = t[2][0][2][0]
+        if is_call(c) and c[1].endswith("::clone") and len(c[2]) == 1 and _side(c[2][0]) is not None:
+            return ("enc", _side(c[2][0]))
     return None
 
 
-class CannotEval(Exception):
-    pass
+def _beta(t):
+    """resolve `(closure value).i` to the i-th captured term and `*&x` to x"""
+    if not isinstance(t, tuple) or not t:
+        return t
+    if t[0] == "field":
+        base = _beta(t[1])
+        b = base
+        while b[0] in ("ref", "deref"):
+            b = b[1]
+        if b[0] == "closure" and str(t[2]).isdigit() and int(t[2]) < len(b[2]):
+            return b[2][int(t[2])]
+        return ("field", base, t[2])
+    if t[0] == "deref":
+        inner = _beta(t[1])
+        return inner[1] if inner[0] == "ref" else ("deref", inner)
+    if t[0] == "ref":
+        return ("ref", _beta(t[1])) + tuple(t[2:])
+    if t[0] == "call":
+        return ("call", t[1], tuple(_beta(a) for a in t[2])) + tuple(t[3:])
+    if t[0] == "aggr":
+        return ("aggr", t[1], t[2], tuple((f, _beta(x)) for f, x in t[3]))
+    if t[0] in ("variant",):
+        return ("variant", _beta(t[1]), t[2])
+    return t
 
 
-def eval_result(t, a, b, label_cmp=None):
+def _closure_result(prog, cl):
+    from lib.prov import subst_params
+    f = prog.fns.get(cl[1])
+    if f is None or not f.blocks:
+        raise CannotEval("closure %s has no body" % cl[1])
+    rt = Prov(f).return_term()
+    if any(isinstance(s, tuple) and s and s[0] in ("phi", "loop", "undef") for s in subterms(rt)):
+        raise CannotEval("closure %s is not a single expression" % cl[1])
+    return _beta(subst_params(rt, [cl]))
+
+
+def eval_result(prog, t, a, b, label_cmp=None):
     """evaluate a result term of a comparison function on sample labels a (self) and b (other) -> 'Less'|'Equal'|'Greater'"""
     if t[0] == "aggr" and t[1] == "core::cmp::Ordering":
         return t[2]
@@ -122,8 +171,13 @@ def eval_result(t, a, b, label_cmp=None):
         y = leaf(t[2][1], a, b)
         return ordname(cmp(x, y))
     if is_call(t, "core::cmp::Ordering::then"):
-        first = eval_result(t[2][0], a, b, label_cmp)
-        return first if first != "Equal" else eval_result(t[2][1], a, b, label_cmp)
+        first = eval_result(prog, t[2][0], a, b, label_cmp)
+        return first if first != "Equal" else eval_result(prog, t[2][1], a, b, label_cmp)
+    if is_call(t, "core::cmp::Ordering::then_with") and t[2][1][0] == "closure":
+        first = eval_result(prog, t[2][0], a, b, label_cmp)
+        return first if first != "Equal" else eval_result(prog, _closure_result(prog, t[2][1]), a, b, label_cmp)
+    if is_call(t, "core::cmp::Ordering::reverse"):
+        return {"Less": "Greater", "Greater": "Less", "Equal": "Equal"}[eval_result(prog, t[2][0], a, b, label_cmp)]
     if is_call(t, LABEL_CMP) and label_cmp is not None:
         x = label_arg(t[2][0], a, b)
         y = label_arg(t[2][1], a, b)
@@ -132,6 +186,8 @@ def eval_result(t, a, b, label_cmp=None):
 
 
 def leaf(t, a, b):
+    if t[0] == "const" and isinstance(t[1], int):
+        return t[1]
     p = payload_of(t)
     if p is None:
         raise CannotEval("operand %s" % show(t)[:80])
@@ -142,9 +198,17 @@ def leaf(t, a, b):
             raise CannotEval("int payload of a text label")
         return v
     if kind == "text":
+        if isinstance(v, int):
+            raise CannotEval("text payload of an integer label")
         return v.encode("utf-8")
     if kind == "len":
+        if isinstance(v, int):
+            raise CannotEval("text payload of an integer label")
         return len(v.encode("utf-8"))
+    if kind == "enc":
+        return enc(v)
+    if kind == "enclen":
+        return len(enc(v))
     raise CannotEval(kind)
 
 
@@ -157,63 +221,109 @@ def label_arg(t, a, b):
     raise CannotEval("label argument %s" % show(t)[:80])
 
 
-def table_eval(prog, rows, a, b, variant_of, label_cmp=None):
-    """find the row selected by (a, b) and evaluate it"""
-    va, vb = variant_of(a), variant_of(b)
+def scalar(t, a, b):
+    """value of a scalar condition subject on the sample"""
+    if is_call(t) and t[1].endswith("::signum") and len(t[2]) == 1:
+        return sgn(leaf(t[2][0], a, b))
+    if t[0] == "binop" and t[1] in ("Eq", "Ne", "Lt", "Le", "Gt", "Ge"):
+        x, y = leaf(t[2], a, b), leaf(t[3], a, b)
+        return int({"Eq": x == y, "Ne": x != y, "Lt": x < y, "Le": x <= y, "Gt": x > y, "Ge": x >= y}[t[1]])
+    if t[0] == "unop" and t[1] == "Not":
+        return int(not scalar(t[2], a, b))
+    if is_call(t) and t[1] in ("core::cmp::PartialEq::eq", "core::cmp::PartialEq::ne") and len(t[2]) == 2:
+        x, y = leaf(t[2][0], a, b), leaf(t[2][1], a, b)
+        return int((x == y) == t[1].endswith("::eq"))
+    if is_call(t) and t[1].endswith("::is_negative") and len(t[2]) == 1:
+        return int(leaf(t[2][0], a, b) < 0)
+    if is_call(t) and t[1].endswith("::is_positive") and len(t[2]) == 1:
+        return int(leaf(t[2][0], a, b) > 0)
+    return leaf(t, a, b)
+
+
+def cond_holds(prog, pv, c, a, b, variant_of):
+    subj, kind, val = c
+    if subj[0] == "discr":
+        cv = cond_variants(prog, pv, c)
+        if cv is None or _side(cv[0]) is None or cv[0][0] == "param":
+            raise CannotEval("condition on %s" % show(subj)[:80])
+        return variant_of(a if _side(cv[0]) == 0 else b) in cv[1]
+    v = scalar(subj, a, b)
+    if kind == "eq":
+        return v == val
+    if kind == "ne":
+        return v not in val
+    if kind == "in":
+        return v in val
+    raise CannotEval("condition kind %s" % kind)
+
+
+def table_eval(prog, table, a, b, variant_of, label_cmp=None):
+    """find the row (path) selected by (a, b) and evaluate its result"""
+    rows, pv = table
     hits = []
-    for v0, v1, extra, term, o in rows:
-        if v0 is not None and va not in v0:
-            continue
-        if v1 is not None and vb not in v1:
-            continue
+    for r in rows:
         ok = True
-        for subj, val in extra.items():
-            if is_call(subj) and subj[1].endswith("::signum"):
-                x = leaf(subj[2][0], a, b)
-                s = sgn(x)
-                if isinstance(val, tuple):
-                    ok = ok and s not in val[1]
-                else:
-                    ok = ok and s == val
-            else:
-                nb = None
-                raise CannotEval("condition on %s" % show(subj)[:80])
+        for c in r["conds"]:
+            if not cond_holds(prog, pv, c, a, b, variant_of):
+                ok = False
+                break
         if ok:
-            hits.append((term, o))
+            hits.append(r)
     if len(hits) != 1:
-        raise CannotEval("%d rows selected for (%r, %r)" % (len(hits), a, b))
-    term, o = hits[0]
-    if o["kind"] == "call" and is_call(term) and term[1] == "core::panicking::panic":
+        raise CannotEval("%d paths selected for (%r, %r)" % (len(hits), a, b))
+    r = hits[0]
+    if r["kind"] == "diverge":
         return "PANIC"
-    return eval_result(term, a, b, label_cmp)
+    return eval_result(prog, r["term"], a, b, label_cmp)
+
+
+def row_variants(prog, pv, r):
+    """(variants of self, variants of other, other conditions) a path requires; None sets = unconstrained; an empty
+    set = the path is infeasible"""
+    vs = {0: None, 1: None}
+    extra = []
+    for c in r["conds"]:
+        cv = cond_variants(prog, pv, c) if c[0][0] == "discr" else None
+        if cv and _side(cv[0]) is not None:
+            s = _side(cv[0])
+            vs[s] = set(cv[1]) if vs[s] is None else vs[s] & set(cv[1])
+        else:
+            extra.append(c)
+    return vs[0], vs[1], extra
 
 
 def check(ctx):
     prog = ctx.prog
     f = prog.fn(LABEL_CMP)
-    rows, pv = decision_table(prog, f)
-    ctx.count("label_cmp_table_rows", len(rows))
     labels = INTS + TEXTS
 
     def variant_of(x):
         return "Int" if isinstance(x, int) else "Text"
 
+    table = None
+    undecided = None
+    try:
+        table = decision_table(prog, f)
+        ctx.count("label_cmp_table_rows", len(table[0]))
+    except CannotEval as e:
+        undecided = str(e)
+
     def label_cmp(a, b):
-        return table_eval(prog, rows, a, b, variant_of)
+        return table_eval(prog, table, a, b, variant_of)
 
     # R-1 table vs oracle
     bad = []
-    undecided = None
     n = 0
-    try:
-        for a, b in itertools.product(labels, labels):
-            n += 1
-            got = label_cmp(a, b)
-            want = ordname(cmp(enc(a), enc(b)))
-            if got != want:
-                bad.append((repr(a)[:20], repr(b)[:20], got, want))
-    except CannotEval as e:
-        undecided = str(e)
+    if table is not None:
+        try:
+            for a, b in itertools.product(labels, labels):
+                n += 1
+                got = label_cmp(a, b)
+                want = ordname(cmp(enc(a), enc(b)))
+                if got != want:
+                    bad.append((repr(a)[:20], repr(b)[:20], got, want))
+        except CannotEval as e:
+            undecided = str(e)
     ctx.count("label_pairs_evaluated", n)
     if undecided:
         ctx.cannot("R-1", "table-vs-cbor-order", "Label::cmp is no longer a decision tree over (variant, sign) with comparison leaves: %s" % undecided, where=f.span)
@@ -222,7 +332,7 @@ def check(ctx):
                "Label::cmp's decision table agrees with bytewise comparison of deterministic CBOR encodings on all %d pairs of the boundary lattice "
                "(%d integers across every head-width boundary of both signs, %d texts across length boundaries)" % (n, len(INTS), len(TEXTS)),
                where=f.span, detail={"disagreements": bad[:8]},
-               sample={"rows": len(rows), "pairs": n, "example": {"(-1,-2)": label_cmp(-1, -2), "(23,24)": label_cmp(23, 24), "(0,-1)": label_cmp(0, -1)}})
+               sample={"rows": len(table[0]), "pairs": n, "example": {"(-1,-2)": label_cmp(-1, -2), "(23,24)": label_cmp(23, 24), "(0,-1)": label_cmp(0, -1)}})
         eqbad = [(a, b) for a, b in itertools.product(labels, labels) if (label_cmp(a, b) == "Equal") != (a == b)]
         ctx.ob("R-1", "equal-iff-same-label", not eqbad, "cmp returns Equal exactly for equal labels (consistency with the derived Eq)", where=f.span,
                detail={"offending": [repr(x)[:40] for x in eqbad[:5]]})
@@ -236,15 +346,17 @@ def check(ctx):
                 trans.append((a, b, c))
         ctx.ob("R-1", "transitive", not trans, "transitivity holds on the sample lattice (%d triples)" % (len(small) ** 3), where=f.span,
                detail={"offending": [repr(x)[:60] for x in trans[:3]]})
-    # the table must be complete: all 9 sign pairs present with a non-panicking result
-    cells = set()
-    for v0, v1, extra, term, o in rows:
-        if v0 == {"Int"} and v1 == {"Int"}:
-            ss = [v for k, v in extra.items() if is_call(k) and k[1].endswith("::signum") and not isinstance(v, tuple)]
-            if len(ss) == 2 and not (is_call(term) and "panic" in term[1]):
-                cells.add(tuple(ss))
-    ctx.ob("R-1", "all-sign-pairs-handled", len(cells) == 9, "all 9 sign combinations of two integer labels have their own non-panicking arm",
-           where=f.span, detail={"cells": sorted(cells)})
+        # the table must be complete: every sign pair of two integer labels selects a path that does not panic
+        cells = set()
+        reps = {-1: (-2 ** 63, -5, -1), 0: (0,), 1: (1, 5, 2 ** 63 - 1)}
+        for s1, s2 in itertools.product((-1, 0, 1), repeat=2):
+            try:
+                if all(label_cmp(x, y) != "PANIC" for x in reps[s1] for y in reps[s2]):
+                    cells.add((s1, s2))
+            except CannotEval:
+                pass
+        ctx.ob("R-1", "all-sign-pairs-handled", len(cells) == 9, "all 9 sign combinations of two integer labels have their own non-panicking arm",
+               where=f.span, detail={"cells": sorted(cells)})
 
     # R-2
     for ty in ("common::Label", "common::RegisteredLabel<T>", "common::RegisteredLabelWithPrivate<T>"):
@@ -257,93 +369,82 @@ def check(ctx):
     # R-3 delegation
     for ty, intvars in (("common::RegisteredLabel<T>", ["Assigned"]), ("common::RegisteredLabelWithPrivate<T>", ["Assigned", "PrivateUse"])):
         g = prog.fn("<%s as core::cmp::Ord>::cmp" % ty)
-        grows, gpv = decision_table(prog, g)
         problems = []
         seen = set()
-        for v0, v1, extra, term, o in grows:
-            if not v0 or not v1 or len(v0) != 1 or len(v1) != 1 or extra:
-                problems.append("row not selected by a single variant pair: %s" % show(term)[:60])
-                continue
-            a, b = next(iter(v0)), next(iter(v1))
-            seen.add((a, b))
-            if a in intvars and b in intvars:
-                ok = is_call(term, LABEL_CMP)
-                if ok:
-                    try:
-                        x = _which(term[2][0])
-                        y = _which(term[2][1])
-                        ok = x == (0, a) and y == (1, b)
-                    except CannotEval:
-                        ok = False
-                if not ok:
-                    problems.append("(%s,%s) should be Label::Int(self).cmp(&Label::Int(other)), found %s" % (a, b, show(term)[:120]))
-            elif a in intvars and b == "Text":
-                if term != ("aggr", "core::cmp::Ordering", "Less", ()):
-                    problems.append("(%s,Text) should be Less" % a)
-            elif a == "Text" and b in intvars:
-                if term != ("aggr", "core::cmp::Ordering", "Greater", ()):
-                    problems.append("(Text,%s) should be Greater" % b)
-            elif a == "Text" and b == "Text":
-                try:
-                    for s1, s2 in itertools.product(TEXTS, TEXTS):
-                        if eval_result(term, s1, s2) != ordname(cmp(enc(s1), enc(s2))):
-                            problems.append("text comparison differs from encoded order on (%r,%r)" % (s1[:8], s2[:8]))
-                            break
-                except CannotEval as e:
-                    problems.append("text arm not understood: %s" % e)
+        try:
+            grows, gpv = decision_table(prog, g)
+        except CannotEval as e:
+            grows, gpv = [], None
+            problems.append(str(e))
         allv = intvars + ["Text"]
+        for r in grows:
+            v0, v1, extra = row_variants(prog, gpv, r)
+            v0 = set(allv) if v0 is None else v0
+            v1 = set(allv) if v1 is None else v1
+            if not v0 or not v1:
+                continue   # contradictory discriminant tests: not a path any value takes
+            term = r["term"]
+            if extra or r["kind"] == "diverge":
+                problems.append("path not selected by the variant pair alone: %s" % show(term)[:60])
+                continue
+            for a, b in itertools.product(sorted(v0), sorted(v1)):
+                seen.add((a, b))
+                if a in intvars and b in intvars:
+                    ok = is_call(term, LABEL_CMP)
+                    if ok:
+                        try:
+                            x = _which(term[2][0])
+                            y = _which(term[2][1])
+                            ok = x == (0, a) and y == (1, b)
+                        except CannotEval:
+                            ok = False
+                    if not ok:
+                        problems.append("(%s,%s) should be Label::Int(self).cmp(&Label::Int(other)), found %s" % (a, b, show(term)[:120]))
+                elif a in intvars and b == "Text":
+                    if term != ("aggr", "core::cmp::Ordering", "Less", ()):
+                        problems.append("(%s,Text) should be Less" % a)
+                elif a == "Text" and b in intvars:
+                    if term != ("aggr", "core::cmp::Ordering", "Greater", ()):
+                        problems.append("(Text,%s) should be Greater" % b)
+                elif a == "Text" and b == "Text":
+                    try:
+                        for s1, s2 in itertools.product(TEXTS, TEXTS):
+                            if eval_result(prog, term, s1, s2) != ordname(cmp(enc(s1), enc(s2))):
+                                problems.append("text comparison differs from encoded order on (%r,%r)" % (s1[:8], s2[:8]))
+                                break
+                    except CannotEval as e:
+                        problems.append("text arm not understood: %s" % e)
         missing = sorted(set(itertools.product(allv, allv)) - seen)
         if missing:
             problems.append("variant pairs without an arm: %s" % missing)
+        problems = sorted(set(problems))
         ctx.ob("R-3", "delegation:%s" % ty, not problems,
                "%s::cmp delegates integer pairs to Label::cmp(Label::Int(self), Label::Int(other)) unswapped; ints before text; text by length then bytes" % ty,
-               where=g.span, detail={"problems": problems}, sample={"type": ty, "arms": len(grows)})
+               where=g.span, detail={"problems": problems[:10]}, sample={"type": ty, "paths": len(grows)})
 
-    # R-4 cmp_canonical
+    # R-4 cmp_canonical: evaluated over the same lattice against the length-first order of the encodings
     h = prog.fn("common::Label::cmp_canonical")
-    hp = Prov(h)
-    outs = outcomes(h, hp)
     problems = []
-
-    def enc_of(t):
-        """unwrap(to_vec(clone(argN))) -> N"""
-        while t[0] in ("ref", "deref"):
-            t = t[1]
-        if is_call(t, "core::result::Result::<T, E>::unwrap") and is_call(t[2][0], "common::CborSerializable::to_vec"):
-            c = t[2][0][2][0]
-            if is_call(c) and c[1].endswith("::clone") and c[2][0][0] == "param":
-                return c[2][0][1]
-        return None
-
-    def len_of(t):
-        while t[0] in ("ref", "deref"):
-            t = t[1]
-        if is_call(t, "alloc::vec::Vec::<T, A>::len"):
-            return enc_of(t[2][0])
-        return None
-    got = {}
-    for o in outs:
-        branch = None
-        for c in o["conds"]:
-            nb = normalize_bool_cond(c)
-            if nb and nb[0][0] == "binop" and nb[0][1] in ("Ne", "Eq"):
-                l0, l1 = len_of(nb[0][2]), len_of(nb[0][3])
-                if {l0, l1} == {0, 1}:
-                    differ = (nb[0][1] == "Ne") == nb[1]
-                    branch = "lengths-differ" if differ else "lengths-equal"
-        t = o["term"]
-        if not is_call(t, ORD_CMP) or branch is None:
-            problems.append("unexpected exit %s" % show(t)[:80])
-            continue
-        if branch == "lengths-differ":
-            got[branch] = (len_of(t[2][0]), len_of(t[2][1]))
-        else:
-            got[branch] = (enc_of(t[2][0]), enc_of(t[2][1]))
-    if got != {"lengths-differ": (0, 1), "lengths-equal": (0, 1)}:
-        problems.append("expected: lengths differ -> len(enc(self)).cmp(len(enc(other))); else enc(self).cmp(enc(other)); found %s" % got)
+    npairs = 0
+    try:
+        htable = decision_table(prog, h)
+        for a, b in itertools.product(labels, labels):
+            npairs += 1
+            got = table_eval(prog, htable, a, b, variant_of)
+            ea, eb = enc(a), enc(b)
+            want = ordname(cmp((len(ea), ea), (len(eb), eb)))
+            if got != want:
+                problems.append("cmp_canonical(%r, %r) = %s, length-first order of the encodings says %s" % (a if isinstance(a, int) else a[:8], b if isinstance(b, int) else b[:8], got, want))
+                if len(problems) > 5:
+                    break
+        hrows = len(htable[0])
+    except CannotEval as e:
+        hrows = 0
+        problems.append("not understood: %s" % e)
+    undec = any(p.startswith("not understood") for p in problems)
     ctx.ob("R-4", "cmp_canonical", not problems,
            "cmp_canonical compares the lengths of the two ENCODINGS first and the encodings bytewise when equal, self before other", where=h.span,
-           detail={"problems": problems, "found": got}, sample={"branches": got})
+           detail={"problems": problems}, sample={"paths": hrows, "pairs": npairs}, kind="cannot-decide" if undec else None)
 
 
 def _which(t):
